@@ -18,7 +18,15 @@ pub fn run(ctx: &Ctx, rep: &mut Reporter) {
         if ctx.slow() {
             cfg.max_blocks = 3;
         }
-        let ast = Gen::new(&mut rng, cfg).ast();
+        let ast = if case_idx % 16 == 5 && !ctx.slow() {
+            // a method with dozens to hundreds of ranged entries: frames on it whose line no
+            // entry covers must be kept, like any other frame that does not resolve
+            rep.count("mappings_with_a_method_of_more_than_32_ranged_entries", 1);
+            let n = *rng.pick(&[33usize, 40, 64, 100, 300]);
+            pgvcore::ast::ranged_group_ast(&mut rng, n)
+        } else {
+            Gen::new(&mut rng, cfg).ast()
+        };
         if !is_representable(&ast) {
             continue;
         }
